@@ -159,6 +159,14 @@ func runC14(t *testing.T, rc *core.RunCtx) {
 	if rc.Plan.Draw(4) == 0 {
 		cfg.handlers = false
 	}
+	// a fifth of the runs have panicking handlers: the time equalities are
+	// stated for fault-free transitions only, the "each transition exactly
+	// once, never interleaved" clauses hold for the faulted ones too
+	if cfg.handlers && rc.Plan.Draw(5) == 0 {
+		cfg.pFault = 9
+		cfg.faults = []int{hbPanicErr, hbPanicVal}
+		cfg.maxTasks = 1
+	}
 	p := genPlan(rc.Plan, &cfg)
 	nTr := rc.Plan.Range(1, 3)
 	late := rc.Plan.Draw(2) == 1
